@@ -589,8 +589,13 @@ def execute(case):
       probe_name = model.named[len(case.get('late') or []) % len(model.named)]
       scratch = _run(lambda: obj.clone(deep=(after == 'deepclone')))
       if scratch[0] == 'ok':
-        _run(lambda: scratch[1].rebind(**{probe_name: 'probe'}))
-        _run(lambda: delattr(scratch[1], model.named[0]))
+        unbound = [n for n in model.named if n not in model.spec]
+        bound = [n for n in model.named if n in model.spec]
+        if unbound:
+          _run(lambda: scratch[1].rebind(**{unbound[0]: 'probe'}))
+        if bound:
+          _run(lambda: delattr(scratch[1], bound[-1]))
+        del probe_name
         bad = check_reported(obj, 'the original (after its clone was re-bound)')
         if bad:
           return res.violate('%s; %s + %r; source:\n%s' % (bad, what, case.get('late'), src), law='clone-shares-bookkeeping', **sigd)
